@@ -144,8 +144,9 @@ def expr(ctx: Ctx, e) -> tuple[str, object]:
         if b[0] == "k":
             return f"({b[1]})", "Z"
         refuse(ctx, e, "slice object used as a value")
-    if isinstance(e, ast.Attribute) and isinstance(e.value, ast.Name) and e.value.id == "self":
-        b = ctx.env.get("self." + e.attr)
+    if isinstance(e, ast.Attribute) and self_chain(e) is not None:
+        # self.a or a chain self.a.b (a property of an attribute): a parameter named in the signature table
+        b = ctx.env.get(self_chain(e))
         if b is None:
             refuse(ctx, e, "unknown attribute of self")
         return b[1], b[2]
@@ -281,6 +282,17 @@ def expr(ctx: Ctx, e) -> tuple[str, object]:
     if isinstance(e, ast.Call):
         return call(ctx, e)
     refuse(ctx, e, "expression")
+
+
+def self_chain(e):
+    """'self.a.b' for an attribute chain rooted at the name self, else None"""
+    parts = []
+    while isinstance(e, ast.Attribute):
+        parts.append(e.attr)
+        e = e.value
+    if isinstance(e, ast.Name) and e.id == "self" and parts:
+        return "self." + ".".join(reversed(parts))
+    return None
 
 
 def none_test(ctx, test):
@@ -516,6 +528,12 @@ def stmts(ctx: Ctx, body: list, node=None) -> str:
                 vt = [expr_g(ctx, x) for x in s.value.elts]
                 vals, types = [v for v, _, _ in vt], [t for _, t, _ in vt]
                 dv = [d for _, _, ds in vt for d in ds]
+            elif isinstance(s.value, (ast.Name, ast.Attribute)):
+                # a, b, c = t   with t of a tuple type
+                v, t = expr(ctx, s.value)
+                if not (isinstance(t, tuple) and t[0] == "T" and len(t) - 1 == len(names)):
+                    refuse(ctx, s, "unpacking a value that is not a tuple of that length")
+                vals, types = [proj(v, i, len(names)) for i in range(len(names))], list(t[1:])
             else:
                 refuse(ctx, s, "tuple assignment")
             ys = [ctx.fresh(n) for n in names]
@@ -528,6 +546,42 @@ def stmts(ctx: Ctx, body: list, node=None) -> str:
                 val = f"({val}, {v})"
             return guarded(ctx, s, dv, f"(let '{pat} := {val} in {stmts(c2, rest, s)})")
         refuse(ctx, s, "assignment target")
+    if isinstance(s, ast.For):
+        # for a, b in zip(T1, T2): BODY   with T1, T2 tuple displays or values of tuple types of one length:
+        # unrolled (the body may raise or assign, it may not return/break/continue)
+        it = s.iter
+        if s.orelse or not (isinstance(it, ast.Call) and isinstance(it.func, ast.Name) and it.func.id == "zip" and not it.keywords):
+            refuse(ctx, s, "for loop (only `for .. in zip(tuples)` is translated)")
+        tg = s.target
+        names = [tg] if isinstance(tg, ast.Name) else (list(tg.elts) if isinstance(tg, ast.Tuple) else None)
+        if names is None or not all(isinstance(x, ast.Name) for x in names) or len(names) != len(it.args):
+            refuse(ctx, s, "for loop target")
+        for sub in ast.walk(ast.Module(body=s.body, type_ignores=[])):
+            if isinstance(sub, (ast.Return, ast.Break, ast.Continue, ast.For, ast.While)):
+                refuse(ctx, sub, "return/break/continue/nested loop inside a for loop")
+        lens, elems = [], []
+        for a in it.args:
+            if isinstance(a, ast.Tuple):
+                lens.append(len(a.elts))
+                elems.append(list(a.elts))
+            else:
+                _, t = expr(ctx, a)
+                if not (isinstance(t, tuple) and t[0] == "T"):
+                    refuse(ctx, a, "zip over a value that is not a tuple")
+                lens.append(len(t) - 1)
+                elems.append([ast.copy_location(ast.Subscript(a, ast.Constant(k), ast.Load()), a) for k in range(len(t) - 1)])
+        if len(set(lens)) != 1:
+            refuse(ctx, s, "zip over tuples of different lengths")
+        import copy
+        unrolled = []
+        for k in range(lens[0]):
+            tgt = ast.Tuple([ast.Name(x.id, ast.Store()) for x in names], ast.Store())
+            val = ast.Tuple([el[k] for el in elems], ast.Load())
+            if len(names) == 1:
+                tgt, val = ast.Name(names[0].id, ast.Store()), elems[0][k]
+            unrolled.append(ast.copy_location(ast.Assign([tgt], val), s))
+            unrolled += copy.deepcopy(s.body)
+        return stmts(ctx, unrolled + rest, s)
     if isinstance(s, ast.While):
         # while COND: simple assignments   ->  local fixpoint on explicit fuel (exhaustion = the loop does not
         # terminate within the bound given in the signature table: Err EOther)
@@ -688,7 +742,7 @@ def translate_function(src_path: Path, tree, item: dict, fns: dict) -> str:
     if node is None:
         raise Refused(where, "function not found")
     selfattrs = list(item.get("self", []))
-    params = [("self_" + n, t) for n, t in selfattrs] + list(item.get("extra", [])) + list(item["params"])
+    params = [("self_" + n.replace(".", "_"), t) for n, t in selfattrs] + list(item.get("extra", [])) + list(item["params"])
     ctx = Ctx(where, fns, raises=item.get("raises", False), ret=item["ret"])
     if "fuel" in item:
         ctx.extra["fuel"] = item["fuel"]
@@ -702,7 +756,7 @@ def translate_function(src_path: Path, tree, item: dict, fns: dict) -> str:
     for n, t in params:
         ctx.env[n] = ("v", cname[n], t)
     for n, t in selfattrs:
-        ctx.env["self." + n] = ("v", "self_" + n, t)
+        ctx.env["self." + n] = ("v", "self_" + n.replace(".", "_"), t)
     if "genexp" in item:
         gens = [g for g in ast.walk(node) if isinstance(g, ast.GeneratorExp)]
         gens.sort(key=lambda g: (g.lineno, g.col_offset))
